@@ -7,4 +7,5 @@ var verifHarnesses = map[string]func(){
 	"VerifMountLocks":     VerifMountLocks,
 	"VerifMountPos":       VerifMountPos,
 	"VerifMountDrop":      VerifMountDrop,
+	"VerifMountFlush":     VerifMountFlush,
 }
